@@ -110,6 +110,31 @@ impl Cfg {
             max_round_duration: Duration::from_nanos(self.max_round),
         }
     }
+    /// what the real `Builder::build` says about this configuration (the strategy's share of it): the monitors of
+    /// a case apply exactly when the real builder lets the configuration through
+    pub fn real_builder_accepts(&self) -> bool {
+        let src = addr_of(3, self.v6);
+        crate::util::guarded(|| {
+            trippy_core::Builder::new(addr_of(self.target, self.v6))
+                .source_addr(Some(src))
+                .protocol(match self.proto { 'i' => Protocol::Icmp, 'u' => Protocol::Udp, _ => Protocol::Tcp })
+                .multipath_strategy(match self.strat { 'c' => MultipathStrategy::Classic, 'p' => MultipathStrategy::Paris, _ => MultipathStrategy::Dublin })
+                .port_direction(match self.pd {
+                    Pd::None => PortDirection::None,
+                    Pd::Src(p) => PortDirection::new_fixed_src(p),
+                    Pd::Dest(p) => PortDirection::new_fixed_dest(p),
+                    Pd::Both(a, b) => PortDirection::new_fixed_both(a, b),
+                })
+                .initial_sequence(self.initial)
+                .trace_identifier(self.trace_id)
+                .max_rounds(self.max_rounds)
+                .first_ttl(self.first)
+                .max_ttl(self.max)
+                .max_inflight(self.inflight)
+                .build()
+                .is_ok()
+        }).unwrap_or(false)
+    }
     /// what `Builder::build` accepts (kept in sync with the Lean `CfgOk`; the builder component
     /// compares both with the real builder)
     pub fn builder_ok(&self) -> bool {
@@ -333,7 +358,7 @@ fn gen_cfg(rng: &mut Rng, thorough: bool) -> Cfg {
     if rng.chance(5, 6) && max < first { std::mem::swap(&mut first, &mut max); }
     let inflight = *rng.pick(&[1u8, 2, 3, 24, 24, 255]);
     let initial = match rng.below(8) {
-        0 => 0, 1 => 63999, 2 => 64000, 3 => 64511, 4 => 64500, 5 => *rng.pick(&[1u16, 100, 64000 - 256]), _ => 33434,
+        0 => 0, 1 => 63999, 2 => 64000, 3 => 64511, 4 => 64500, 5 => *rng.pick(&[1u16, 100, 64000 - 256, 64512, 65016, 65023, 65534]), _ => 33434,
     };
     let unit = *rng.pick(&[1u64, 1000, 1_000_000]);
     let (mut min_round, mut max_round) = (rng.below(8) * unit, rng.below(12) * unit);
@@ -360,6 +385,15 @@ thread_local! {
 /// `plan`: forced (send outcomes, wait) for the first iterations of the case (directed scenarios)
 pub fn run_case_plan(run: &mut Run, rng: &mut Rng, cfg: &Cfg, iters: usize, fault: bool, wrap_soak: bool, mut plan: VecDeque<(Vec<char>, u64)>) {
     let t0 = rng.below(1000) * 1000;
+    // the real builder decides whether this is a configuration a user can run (C16: it agrees with CfgOk)
+    let accepted = cfg.real_builder_accepts();
+    if accepted != cfg.builder_ok() {
+        run.fail("c16-builder-differs-from-cfgok", format!("{}: Builder::build {} it, the documented constraints (CfgOk) {}", cfg.line(t0),
+            if accepted { "accepts" } else { "rejects" }, if cfg.builder_ok() { "accept" } else { "reject" }));
+    }
+    // the properties speak about configurations a user can run: what the monitors say about a configuration the
+    // builder refuses is dropped at the end of the case (the model still has to agree with the code on it)
+    let failures_before = run.oracle_failures.len();
     clock::enable(t0);
     let real = cfg.real();
     let published: RefCell<Option<String>> = RefCell::new(None);
@@ -401,13 +435,16 @@ pub fn run_case_plan(run: &mut Run, rng: &mut Rng, cfg: &Cfg, iters: usize, faul
         let mut force_none = false;
         let mut force_stale = false;
         let mut force_genuine = false;
+        // 'P' = a late answer to a probe of the previous round (junk kind 1)
+        let mut force_prev = false;
         let mut force_fatal = false;
         if let Some((fs, _)) = &mut forced {
             if fs.contains(&'N') { force_none = true; }
             if fs.contains(&'S') { force_stale = true; }
             if fs.contains(&'G') { force_genuine = true; }
+            if fs.contains(&'P') { force_prev = true; }
             if fs.contains(&'X') { force_fatal = true; }
-            fs.retain(|c| !matches!(*c, 'N' | 'S' | 'G' | 'X'));
+            fs.retain(|c| !matches!(*c, 'N' | 'S' | 'G' | 'X' | 'P'));
         }
         let sends: Vec<char> = if let Some((fs, _)) = &forced { fs.clone() } else if fault && rng.chance(1, 8) {
             match cfg.proto {
@@ -418,7 +455,7 @@ pub fn run_case_plan(run: &mut Run, rng: &mut Rng, cfg: &Cfg, iters: usize, faul
         let dt = if let Some((_, fdt)) = &forced { *fdt } else if wrap_soak { cfg.max_round + 1 } else { *rng.pick(&unit) };
         let now_after = clock::now_ns() + dt;
         let aw = awaited(&st);
-        let choice = if force_stale { 99 } else if force_genuine { 50 } else { rng.below(100) };
+        let choice = if force_stale || force_prev { 99 } else if force_genuine { 50 } else { rng.below(100) };
         let mut genuine_for: Option<Probe> = None;
         let mut genuine_is_target = false;
         let recv = if force_none || (force_genuine && aw.is_empty()) {
@@ -445,7 +482,7 @@ pub fn run_case_plan(run: &mut Run, rng: &mut Rng, cfg: &Cfg, iters: usize, faul
             let stale_idx: Vec<usize> = (count_after..512).filter(|i| stale[*i]).collect();
             // sequences of this round that were abandoned for a re-issue (address in use): never on the wire
             let abandoned: Vec<u16> = round_log.iter().filter(|x| x.2 == 'a').map(|x| x.0).collect();
-            let k = if !stale_idx.is_empty() && (force_stale || rng.chance(1, 2)) { 7 } else if !abandoned.is_empty() && rng.chance(1, 2) { 8 } else { rng.below(7) };
+            let k = if force_prev && !prev_round_probes.is_empty() { 1 } else if !stale_idx.is_empty() && (force_stale || rng.chance(1, 2)) { 7 } else if !abandoned.is_empty() && rng.chance(1, 2) { 8 } else { rng.below(7) };
             run.count(&format!("junk:{k}"));
             let fake = |seq: u16, rng: &mut Rng| -> Probe {
                 let mut p = aw.first().cloned().or_else(|| prev_round_probes.first().cloned()).unwrap_or_else(|| Probe {
@@ -517,7 +554,7 @@ pub fn run_case_plan(run: &mut Run, rng: &mut Rng, cfg: &Cfg, iters: usize, faul
             Ok((snap_a, snap_b))
         });
         match res {
-            Err(p) => { if cfg.builder_ok() { run.fail("panic", format!("{} | {op} ({p})", cfg.line(t0))); } run.op(op, "panic".into()); run.count("outcome:panic"); break; }
+            Err(p) => { if accepted { run.fail("panic", format!("{} | {op} ({p})", cfg.line(t0))); } run.op(op, "panic".into()); run.count("outcome:panic"); break; }
             Ok(Err(e)) => {
                 // C09: a fatal outcome ends the run with that error
                 let was_fatal = sends.contains(&'x') || recv_tok == "x" || (cfg.proto != 't' && sends.contains(&'a'))
@@ -693,6 +730,7 @@ pub fn run_case_plan(run: &mut Run, rng: &mut Rng, cfg: &Cfg, iters: usize, faul
             }
         }
     }
+    if !accepted { run.oracle_failures.truncate(failures_before); }
     clock::disable();
 }
 
@@ -716,17 +754,31 @@ fn clock_backsteps(run: &mut Run, rng: &mut Rng, thorough: bool) {
         let mut net = ScriptNet { v6: cfg.v6, sends: VecDeque::new(), dt: 0, back: 0, recv: Recv::None, log: vec![] };
         let path_len = rng.range(1, u64::from(cfg.max) + 1) as u8;
         let mut last_pub_iter = 0usize;
+        // C08 under clock steps: the timing policy, recomputed with the elapsed times the property speaks about
+        // (time that has not passed — a timestamp in the future of the stepped-back clock — counts as zero)
+        let (mut round_start, mut last_accept, mut target_in_round) = (t0, None::<u64>, false);
         for it in 0..200usize {
             net.sends.clear();
             net.log.clear();
-            net.back = if rng.chance(1, 4) { *rng.pick(&[1u64, 1000, cfg.grace + 1, cfg.max_round + 1, 3_000_000_000]) } else { 0 };
+            // sizes of the backward step: tiny, just over the grace period, part of the round's age (so that the round
+            // is still older than min-round afterwards), more than a whole round, and now and then very large
+            let age = clock::now_ns().saturating_sub(round_start);
+            net.back = if rng.chance(1, 4) {
+                if rng.chance(1, 20) { 3_000_000_000 } else {
+                    *rng.pick(&[1u64, 1000, cfg.grace + 1, cfg.grace + 1, age / 2, age.saturating_sub(cfg.min_round + 1), age.saturating_sub(cfg.min_round + 2) / 2 + 1, cfg.max_round + 1]).max(&1)
+                }
+            } else { 0 };
             net.dt = *rng.pick(&[1u64, cfg.grace + 1, cfg.min_round + 1, cfg.max_round / 3 + 1, cfg.max_round + 1]);
             let aw = awaited(&st);
+            let now_after = if net.back > 0 { clock::now_ns().saturating_sub(net.back) } else { clock::now_ns() + net.dt };
+            let mut accepted_now = None;
             net.recv = if !aw.is_empty() && rng.chance(1, 2) {
                 let p = rng.pick(&aw).clone();
                 let is_t = p.ttl.0 >= path_len;
-                // the answer is time-stamped by the (possibly stepped-back) clock after the wait
-                let recv_at = if net.back > 0 { clock::now_ns().saturating_sub(net.back) } else { clock::now_ns() + net.dt };
+                // the answer is time-stamped by the network layer when it is read: at the clock reading after the
+                // wait, or — the step falls between the read and the end of the wait — just before the step
+                let recv_at = if net.back > 0 && rng.chance(1, 2) { clock::now_ns() } else { now_after };
+                accepted_now = Some((recv_at, is_t));
                 Recv::Resp(genuine(&cfg, &p, if is_t { cfg.target } else { 1000 + u64::from(p.ttl.0) }, is_t, recv_at, rng))
             } else { Recv::None };
             let desc = format!("{} | case {case} iteration {it}: clock {} -> {} during the wait", cfg.line(t0), clock::now_ns(),
@@ -744,7 +796,15 @@ fn clock_backsteps(run: &mut Run, rng: &mut Rng, thorough: bool) {
                 Ok(Err(e)) => { run.fail("c09-spurious-error", format!("{desc} [{e}]")); break; }
                 Ok(Ok(())) => {}
             }
-            if published.get() > before { last_pub_iter = it; }
+            if let Some((r, is_t)) = accepted_now { last_accept = Some(r); if is_t { target_in_round = true; } }
+            let dur = now_after.saturating_sub(round_start);
+            let grace_ok = last_accept.is_some_and(|r| now_after.saturating_sub(r) > cfg.grace);
+            let should = dur > cfg.max_round || (target_in_round && dur > cfg.min_round && grace_ok);
+            if should != (published.get() > before) {
+                run.fail("c08-publish-condition-clock-step", format!("{desc}: round started at {round_start}, last response at {last_accept:?}, target answered {target_in_round}, now {now_after}: should publish = {should}, published = {}", published.get() > before));
+                break;
+            }
+            if published.get() > before { last_pub_iter = it; round_start = now_after; last_accept = None; target_in_round = false; }
             run.count("c09:backstep-iterations");
         }
         let _ = last_pub_iter;
@@ -844,6 +904,25 @@ pub fn run(rng: &mut Rng, thorough: bool, corpus: &[String]) -> Run {
                 run.count("directed:tcp-reissue-near-target");
                 run_case_plan(&mut run, rng, &cfg, plan.len(), false, false, plan);
             }
+        }
+    }
+    // directed: initial sequences at and beyond the builder's limit (whatever the builder accepts is run): a round of
+    // 8 silent probes, then rounds in which late answers to the previous round's probes arrive while the same slots
+    // are awaited again — they must stay junk, and no sequence number may be used by two consecutive rounds
+    for initial in [64511u16, 64512, 65000, 65016, 65022, 65023] {
+        for proto in ['i', 'u'] {
+            let mut cfg = gen_cfg(rng, thorough);
+            while !cfg.builder_ok() || cfg.proto != proto { cfg = gen_cfg(rng, thorough); }
+            cfg.initial = initial; cfg.first = 1; cfg.max = 8; cfg.inflight = 24; cfg.max_rounds = None;
+            cfg.min_round = 0; cfg.max_round = 1000; cfg.grace = 0;
+            if proto == 'u' { cfg.strat = 'c'; cfg.pd = Pd::Src(5000); }
+            let mut plan = VecDeque::new();
+            for _round in 0..4 {
+                for _ in 0..7 { plan.push_back((vec!['P'], 0)); }
+                plan.push_back((vec!['P'], 1001));
+            }
+            run.count("directed:initial-sequence-near-limit");
+            run_case_plan(&mut run, rng, &cfg, plan.len(), false, false, plan);
         }
     }
     // directed: Dublin/IPv6 soak — one probe per round for 1100 rounds: the sequence has to restart at the
